@@ -1,5 +1,6 @@
 import UtilModel.Keyed.Corollaries2
 import UtilModel.Keyed.C07Retry
+import UtilModel.Keyed.ObsC07
 /-!
 # keyed — property theorems (C06, C07)
 
@@ -95,6 +96,14 @@ theorem one_running_per_key (es : List Ev) (s : St) (hr : model.run model.init e
   · simp [proj_get, hx']
   · cases hst : x.st <;> simp [hst, IS.active] at ha <;> simp [projI, projSt, hst]
   · cases hst : x'.st <;> simp [hst, IS.active] at ha' <;> simp [projI, projSt, hst]
+
+/-- **C07 (one running), observable form.** Every observable trace of the model is accepted by the
+executable monitor `monC07a` (the routine functions of one record — one constructor call for one key —
+never overlap, however the routine is restarted); the same monitor runs on the histories of the real
+code. (`monC07`'s first clause is stronger: it also spans `ResetRoutine`; for it only the state-level
+theorem above is proved.) -/
+theorem C07_obs_one_running (es : List Ev) (s : St) (hr : model.run model.init es = some s) :
+    monC07a.accepts (es.filterMap model.obs) = true := C07a_obs es s hr
 
 /-- **C07 (removal cancels).** In every reachable state an instance whose context is not cancelled
 belongs to the generation of the record stored under its key, and that record holds its cancel
@@ -209,6 +218,13 @@ example : (model.run model.init [.config { rc := false, delay := false, retry :=
     .inv 2 (.restartRoutine 1), .exec 2, .ret 2 (.existedReset true true),
     .inv 3 (.restartRoutine 1), .exec 3, .ret 3 (.existedReset true true),
     .bail 0 1, .proceed 0 2]).isSome = false := by decide
+
+/-- C06-s2: the removal timer of key 1 has fired (epoch over) and its callback has not run yet; `SetKey(1,
+false)` reports `existed` and keeps the key; the callback is then no longer enabled -/
+example : ((model.run model.init (evs1 ++ [.advance, .inv 3 (.setKey 1 false), .exec 3, .ret 3 (.dataExisted 1 true)])).map
+    fun s => (abs s).st 1) = some (.present 1) := by decide
+example : (model.run model.init (evs1 ++ [.advance, .inv 3 (.setKey 1 false), .exec 3, .ret 3 (.dataExisted 1 true),
+    .timerRemove 1])).isSome = false := by decide
 
 /-- regression for D18-keyed (fixed in /repo a27bd68): `ResetRoutine` with a nil `Routine`, then
 `ResetRoutine` again while the first routine is still running — the new instance waits (its `proceed`
